@@ -367,6 +367,10 @@ def _aggregate(mod, prop, tier, seed, level, kind, results, skipped, nbatches, t
             coverage.update(mod.finalize(tier, merged) or {})
         except Exception as exc:  # pragma: no cover
             coverage["finalize_error"] = repr(exc)
+    if "exhaustive" in coverage and not isinstance(coverage["exhaustive"], bool):
+        # the evidence schema wants a boolean; keep a module's description of what it swept under another key
+        coverage["exhaustive_note"] = str(coverage["exhaustive"])
+        coverage["exhaustive"] = False
     evidence = {
         "property_id": prop,
         "tier": tier,
